@@ -940,7 +940,7 @@ def resolve_contract(ex, node, method_of=None):
 
         def find(c):
             for k, con in S.CONTRACTS.items():
-                if con.qual == c + '.' + name:
+                if con.qual == c + '.' + name and not getattr(con, 'variant', ''):
                     return con
             cm = S.CLASSES.get(c)
             if cm:
@@ -961,6 +961,8 @@ def resolve_contract(ex, node, method_of=None):
             if key:
                 return S.CONTRACTS[key], None
             for k, con in S.CONTRACTS.items():
+                if getattr(con, 'variant', ''):
+                    continue
                 if con.qual == q or k.endswith('.' + q) or k.endswith(':' + q):
                     return con, None
             for k, con in S.CONTRACTS.items():
@@ -977,7 +979,7 @@ def resolve_contract(ex, node, method_of=None):
     for k, con in S.CONTRACTS.items():
         if con.qual == name + '.__init__':
             return con, name
-    cands = [con for k, con in S.CONTRACTS.items() if con.qual == name]
+    cands = [con for k, con in S.CONTRACTS.items() if con.qual == name and not getattr(con, 'variant', '')]
     if len(cands) == 1:
         return cands[0], None
     if len(cands) > 1:
